@@ -54,7 +54,15 @@ pub fn generate(run_seed: u64, corpus: &Corpus, sw: &Swarm, i: u64, exhaustive: 
         let n_env = W5_ENVS.len() as u64;
         let (kind, cl) = W5_ENVS[(i % n_env) as usize];
         let client = client_for(cl);
-        // last block of the exhaustive prefix: sliding multi-byte cases, each through iterate and the four loaders
+        // last block: every token pair repeated n times, through iterate (str) and load (buffered)
+        let rep = gen::repeat_count() * 2;
+        if i >= exhaustive - rep {
+            let j = i - (exhaustive - rep);
+            let (input, client) = if j % 2 == 0 { (InputKind::Str, Client::Iterate) } else { (InputKind::Buffered, Client::LoadMulti) };
+            return Case { prop: "C01".into(), gen: "R-repeat".into(), text: gen::nth_repeat(j / 2), input, client, ..Case::default() };
+        }
+        let exhaustive = exhaustive - rep;
+        // before it: sliding multi-byte cases, each through iterate and the four loaders
         let slide = gen::slide_count() * 5;
         if i >= exhaustive - slide {
             let j = i - (exhaustive - slide);
